@@ -1003,6 +1003,10 @@ fn small_programs() -> Vec<(u16, Vec<u16>, bool, &'static str)> {
         // directives beyond it exist but are not valid locations
         (0xFDFE, vec![0x1021, 0x1021, 0x1021, 0xF025, 0xF025], false, "straddle-top"),
         (0xFDFF, vec![0x1021, 0xF025, 0x1021, 0xF025], false, "straddle-top-1"),
+        // origin 0x0000 / 0x0001: address arithmetic below the origin has nowhere to go but under
+        // zero (clamping it would land on address 0, which is in user space here)
+        (0x0000, vec![0x1021, 0x1021, 0x1021, 0xF025, 0x0000], false, "origin-zero"),
+        (0x0001, vec![0x1021, 0x1021, 0xF025], false, "origin-one"),
     ]
 }
 
@@ -1067,6 +1071,70 @@ fn stride_sessions(tag: &'static str) -> Vec<(DbgCase, &'static str)> {
             cmds.extend([Cmd::BreakList, Cmd::Continue, Cmd::Registers, Cmd::Continue, Cmd::Registers, Cmd::Exit]);
             c.cmds = cmds;
             out.push((c, "straight-long"));
+        }
+    }
+    out
+}
+
+/// A program of 0xB100 words at origin 0x1000 with a label at 0xC000: label + offset and PC + offset
+/// sums that carry past 0xFFFF would, taken modulo 2^16, land inside user space again.
+fn carry_sessions(tag: &'static str) -> Vec<(DbgCase, &'static str)> {
+    let mut out = Vec::new();
+    let mut rng = Rng::new(0xCA22);
+    let mut words = vec![0u16; 0xB100];
+    words[0] = 0xF025;
+    for off in [0x4000i32, 0x4001, 0x5000, 0x6000, 0x7FFF, 0x3DFF, 0x3E00, 0x3FFF] {
+        for variant in 0..4 {
+            let p = Prog { orig: 0x1000, words: words.clone(), inp: vec![], stack: false, minimal: true, kind: "big-low-origin" };
+            let mut c = decorate(&mut rng, &p, tag, vec![], 30_000);
+            c.breaks.clear();
+            c.labels = vec![("zq0".into(), 0xB000)];
+            let mut cmds = Vec::new();
+            let l = if variant < 2 {
+                Loc::Label("zq0".into(), off)
+            } else {
+                cmds.push(Cmd::Goto(Loc::Addr(0xC000)));
+                Loc::Pc(off)
+            };
+            cmds.push(if variant % 2 == 0 { Cmd::BreakAdd(l) } else { Cmd::MoveMem(l, 0x1234) });
+            cmds.extend([Cmd::BreakList, Cmd::Registers, Cmd::Exit]);
+            c.cmds = cmds;
+            out.push((c, "big-low-origin"));
+        }
+    }
+    out
+}
+
+/// Locations whose true address is negative, at origins 0 and 1, from every PC of the program.
+fn below_zero_sessions(tag: &'static str) -> Vec<(DbgCase, &'static str)> {
+    let mut out = Vec::new();
+    let mut rng = Rng::new(0x2E80);
+    for (orig, words, stack, kind) in small_programs() {
+        if !kind.starts_with("origin-") {
+            continue;
+        }
+        for k in 0..3u16 {
+            for off in [-1i32, -2, -3, -32768, 0, 1] {
+                for variant in 0..4 {
+                    let p = Prog { orig, words: words.clone(), inp: vec![], stack, minimal: true, kind };
+                    let mut c = decorate(&mut rng, &p, tag, vec![], 30_000);
+                    c.breaks.clear();
+                    c.labels = vec![("zq0".into(), 0), ("zq1".into(), 1)];
+                    let l = if variant % 2 == 0 { Loc::Pc(off) } else { Loc::Label(if k == 0 { "zq0".into() } else { "zq1".into() }, off) };
+                    let mut cmds = Vec::new();
+                    if k > 0 {
+                        cmds.push(Cmd::StepInto(k));
+                    }
+                    cmds.push(match variant {
+                        0 | 1 => Cmd::MoveMem(l, 0x1234),
+                        2 => Cmd::BreakAdd(l),
+                        _ => Cmd::Goto(l),
+                    });
+                    cmds.extend([Cmd::PrintMem(Loc::Addr(0)), Cmd::BreakList, Cmd::Registers, Cmd::Exit]);
+                    c.cmds = cmds;
+                    out.push((c, kind));
+                }
+            }
         }
     }
     out
@@ -1336,6 +1404,27 @@ pub fn run_prop(o: &crate::Opts, tag: &'static str) {
     let mut samples = Vec::new();
     if o.shard == 0 && tag != "D13" {
         for (c, kind) in directed(tag) {
+            let obs = run_debug(&mut cap, &c);
+            let v = if obs.line == "panic" { "-".to_string() } else { verdict(&mut cap, tag, &c, &obs) };
+            *kinds.entry(format!("directed-{}:{}", kind, obs.line.split(' ').next().unwrap_or(""))).or_default() += 1;
+            *verdicts.entry(v.clone()).or_default() += 1;
+            sink.put(&c.request(), &format!("{} | {}", obs.line, v));
+        }
+    }
+    if tag == "D13" {
+        for (i, (c, kind)) in carry_sessions(tag).into_iter().enumerate() {
+            if i % o.nshards != o.shard {
+                continue;
+            }
+            let obs = run_debug(&mut cap, &c);
+            let v = if obs.line == "panic" { "-".to_string() } else { verdict(&mut cap, tag, &c, &obs) };
+            *kinds.entry(format!("directed-{}:{}", kind, obs.line.split(' ').next().unwrap_or(""))).or_default() += 1;
+            *verdicts.entry(v.clone()).or_default() += 1;
+            sink.put(&c.request(), &format!("{} | {}", obs.line, v));
+        }
+    }
+    if o.shard == 4 % o.nshards && tag == "D13" {
+        for (c, kind) in below_zero_sessions(tag) {
             let obs = run_debug(&mut cap, &c);
             let v = if obs.line == "panic" { "-".to_string() } else { verdict(&mut cap, tag, &c, &obs) };
             *kinds.entry(format!("directed-{}:{}", kind, obs.line.split(' ').next().unwrap_or(""))).or_default() += 1;
